@@ -90,7 +90,9 @@ def gen_cases(tier: str, seed: int):
             ('K3WQ', 'Quantifier Interdefinability 1', {}), ('CPL', 'Affirming the Consequent', {}),
             ('S5', 'Possibility Addition', {'max_steps': 3}), ('CFOL', 'Self Identity 1', {}),
             ('LP', 'Law of Non-contradiction', {}), ('D', 'Serial Inference 1', {}),
-            ('CFOL', 'Identity Indiscernability 1', {})]
+            ('CFOL', 'Identity Indiscernability 1', {}),
+            # open branches cut short by a world-limit flag (quit-flag nodes must not look like closures)
+            ('TB3E', 'S5 Material Inference 1', {}), ('S4K3W', 'S5 Conditional Inference 1', {})]
     cases = [dict(logic=l, arg=a, opts=o) for l, a, o in core if a in names]
     seen = {(c['logic'], c['arg'], json.dumps(c['opts'])) for c in cases}
     while len(cases) < n:
